@@ -17,6 +17,7 @@ var (
 	tblActive, tblDeprecated, tblExceptions []string
 	tblRanges                               [][][]string
 	famIDs                                  []string // every id mentioned in the range table
+	specialIDs, specialExcs                 []string // ids / exceptions with a property that code is tempted to key on (see specialPool)
 	activeSet, deprecatedSet, exceptionSet  map[string]bool
 )
 
@@ -39,6 +40,67 @@ func loadTables() {
 			famIDs = append(famIDs, g...)
 		}
 	}
+	specialIDs = specialPool(append(append([]string{}, tblActive...), tblDeprecated...))
+	for _, f := range tblRanges { // the ends of every family and of every version group
+		specialIDs = append(specialIDs, f[0][0], f[len(f)-1][len(f[len(f)-1])-1])
+	}
+	specialExcs = specialPool(tblExceptions)
+}
+
+// specialPool: the ids a shortcut in the code is most likely to treat differently from the rest — first / last / shortest /
+// longest of the list, ids that are a prefix of another id, ids that contain an operator word or a suffix word inside,
+// ids that begin with a digit, ids with an unusual character class
+func specialPool(ids []string) []string {
+	if len(ids) == 0 {
+		return nil
+	}
+	seen := map[string]bool{}
+	var out []string
+	add := func(x string) {
+		if !seen[x] {
+			seen[x] = true
+			out = append(out, x)
+		}
+	}
+	add(ids[0])
+	add(ids[len(ids)-1])
+	sh, lo := ids[0], ids[0]
+	for _, x := range ids {
+		if len(x) < len(sh) {
+			sh = x
+		}
+		if len(x) > len(lo) {
+			lo = x
+		}
+	}
+	add(sh)
+	add(lo)
+	lower := make([]string, len(ids))
+	for i, x := range ids {
+		lower[i] = strings.ToLower(x)
+	}
+	npre := 0
+	for i, x := range lower {
+		for _, w := range []string{"or", "and", "with", "only", "later", "licenseref", "documentref"} {
+			if strings.Contains(x, w) && !strings.HasSuffix(x, "-only") && !strings.HasSuffix(x, "-or-later") {
+				add(ids[i])
+			}
+		}
+		if x[0] >= '0' && x[0] <= '9' {
+			add(ids[i])
+		}
+		if npre < 60 {
+			for j, y := range lower {
+				if i != j && strings.HasPrefix(y, x) {
+					add(ids[i])
+					add(ids[j])
+					npre++
+					break
+				}
+			}
+		}
+	}
+	return out
 }
 
 // digest of the live tables; must equal the driver's `D` answer (stale-driver detection)
@@ -142,14 +204,23 @@ var refNames = []string{"a", "b", "x-1.0", "MIT", "GPL-2.0-or-later", "A.b-c",
 var docNames = []string{"d", "e.1", "spdx-tool-1.2"}
 
 func genBaseID() string {
-	switch rng.Intn(4) {
+	switch rng.Intn(5) {
 	case 0:
 		return pick(tblActive)
 	case 1:
 		return pick(tblDeprecated)
+	case 2:
+		return pick(specialIDs)
 	default:
 		return pick(famIDs)
 	}
+}
+
+func genException() string {
+	if len(specialExcs) > 0 && rng.Intn(3) == 0 {
+		return pick(specialExcs)
+	}
+	return pick(tblExceptions)
 }
 
 func genTerm() *term {
@@ -183,7 +254,7 @@ func genTerm() *term {
 		t.suffix, t.plus = "-or-later", true
 	}
 	if rng.Intn(6) == 0 {
-		t.exc = pick(tblExceptions)
+		t.exc = genException()
 	}
 	t.build()
 	return t
